@@ -8,7 +8,7 @@
    iteration order leaking into an output) is established by the controlled-schedule and
    hash-seed runs of harness/props/c04.py (bitwise comparison of the outputs), not proved. *)
 From Coq Require Import ZArith List Bool Permutation.
-From CTM Require Import Base.Sx Base.SortX Model.Pool Model.Gather Model.Markers
+From CTM Require Import Base.Sx Base.SortX Model.Pool Model.Gather Model.Tree Model.Markers
   Proofs.PoolP Proofs.GatherP Proofs.SelPoolP Proofs.MarkersP Proofs.CacheOrderP.
 Import ListNotations.
 
@@ -188,6 +188,17 @@ Theorem c04_cache_groups_strictly_sorted : forall (tb : table) (refg qg : list g
 Proof. exact cache_groups_sorted. Qed.
 Print Assumptions c04_cache_groups_strictly_sorted.
 
+(* one level up, the whole of create_marker_cache_from_specified_markers (validation and
+   patching against the taxonomy tree when one is given, restriction to the query genes,
+   reference check, writing): the cache -- or the error -- is a function of the SET of genes
+   listed under each key; neither the order nor the multiplicity of a listing matters *)
+Theorem c04_cache_independent_of_listing :
+  forall (tb1 tb2 : table) (refg qg : list gene) (topt : option tree) (minm : nat),
+  Forall2 (fun e1 e2 => fst e1 = fst e2 /\ forall g, In g (snd e1) <-> In g (snd e2)) tb1 tb2 ->
+  create_cache tb1 refg qg topt minm = create_cache tb2 refg qg topt minm.
+Proof. exact create_cache_listing_independent. Qed.
+Print Assumptions c04_cache_independent_of_listing.
+
 (* ---- hypotheses satisfiable, conclusions not vacuous *)
 Example c04_example_gather :
   let work := fun (i : nat) (seed : Z) => map (fun j => (Z.of_nat (3 * i + j), seed + Z.of_nat j)%Z) (seq 0 3) in
@@ -255,4 +266,22 @@ Proof.
   - constructor; [|constructor]. split; [reflexivity|]. cbn.
     apply (Permutation_cons_app [11]%Z [10]%Z 13%Z). apply (Permutation_cons_app [11]%Z nil 10%Z). reflexivity.
   - intros k l [E|[]]. inversion E; subst. apply (proj1 (znodup_b_spec _)). vm_compute. reflexivity.
+Qed.
+
+(* the same parent listed with a repeated gene and in another order; a two-level tree (root
+   with children 1 and 2) so that the validation against the tree runs too *)
+Example c04_example_cache_listing :
+  let refg := [10; 11; 12; 13]%Z in
+  let qg := [13; 12; 11; 10]%Z in
+  let t : tree := [[(1, [5]); (2, [6])]; [(5, [50]); (6, [60])]]%Z in
+  let tb1 := [(None, [13; 10; 11; 10]%Z)] in
+  let tb2 := [(None, [11; 13; 10]%Z)] in
+  Forall2 (fun e1 e2 => fst e1 = fst e2 /\ forall g, In g (snd e1) <-> In g (snd e2)) tb1 tb2 /\
+  create_cache tb1 refg qg (Some t) 1 = create_cache tb2 refg qg (Some t) 1 /\
+  create_cache tb1 refg qg (Some t) 1 =
+    MOk {| c_parents := [None]; c_allq := [0; 2; 3]%nat; c_allr := [0; 1; 3]%nat;
+           c_groups := [(None, ([0; 1; 3], [3; 2; 0])%nat)] |}.
+Proof.
+  cbv zeta. split; [|split; vm_compute; reflexivity].
+  constructor; [|constructor]. split; [reflexivity|]. intros g. cbn. intuition.
 Qed.
